@@ -456,6 +456,8 @@ pub struct Instance<S: Scheme> {
     pub comms: Vec<LabeledCommitment<Comm<S>>>,
     pub states: Vec<State<S>>,
     pub bounds: Option<Vec<usize>>,
+    /// the hiding bound the keys were trimmed for
+    pub shb: usize,
 }
 
 impl<S: Scheme> Instance<S> {
@@ -536,10 +538,18 @@ pub fn instance_sized<S: Scheme>(rng: &mut Rng, sizes: Sizes, npoly: usize) -> R
         kinds.push(kind);
     }
     let bounds_opt = if S::BOUNDS && (!bounds.is_empty() || coin(rng)) { Some(bounds) } else { None };
-    let (ck, vk) = S::PC::trim(&pp, sizes.supported, sizes.supported, bounds_opt.as_deref())
+    // the hiding bound the keys are trimmed for is independent of the supported degree: half of the instances
+    // use some other admissible value (at least what the polynomials need, at most the parameters' degree)
+    let need_h = polys.iter().filter_map(|p| p.hiding_bound()).max().unwrap_or(0).max(1);
+    let shb = if (S::NAME == "marlin" || S::NAME == "sonic" || S::NAME == "pst13") && coin(rng) && need_h <= sizes.max_degree {
+        range(rng, need_h, sizes.max_degree)
+    } else {
+        sizes.supported
+    };
+    let (ck, vk) = S::PC::trim(&pp, sizes.supported, shb, bounds_opt.as_deref())
         .map_err(|e| format!("trim: {:?}", e))?;
     let (comms, states) = S::PC::commit(&ck, &polys, Some(rng)).map_err(|e| format!("commit: {:?}", e))?;
-    Ok(Instance { sizes, pp, ck, vk, polys, kinds, comms, states, bounds: bounds_opt })
+    Ok(Instance { sizes, pp, ck, vk, polys, kinds, comms, states, bounds: bounds_opt, shb })
 }
 
 #[derive(Clone, Debug, PartialEq)]
@@ -1516,9 +1526,9 @@ where
                 refuse(ctx, &id, "hiding-0", matches!(r, Ok(Ok(_))), "hiding_bound = Some(0)".into());
             }
             if S::NAME != "ipa" {
-                let lp = LabeledPolynomial::new("hbig".to_string(), p.clone(), None, Some(sizes.supported + 2));
+                let lp = LabeledPolynomial::new("hbig".to_string(), p.clone(), None, Some(inst.shb + 2));
                 let r = guarded(|| S::PC::commit(&inst.ck, [&lp], Some(&mut rng.clone())));
-                refuse(ctx, &id, "hiding-beyond-key", matches!(r, Ok(Ok(_))), format!("hiding_bound = supported+2 = {}", sizes.supported + 2));
+                refuse(ctx, &id, "hiding-beyond-key", matches!(r, Ok(Ok(_))), format!("hiding_bound = (trimmed hiding bound)+2 = {}", inst.shb + 2));
             }
             let lp = LabeledPolynomial::new("norng".to_string(), p.clone(), None, Some(1));
             let r = guarded(|| S::PC::commit(&inst.ck, [&lp], None));
@@ -2204,7 +2214,7 @@ where
         let pp2 = match PP::<S>::deserialize_compressed(&bytes[..]) { Ok(p) => p, Err(_) => {
             ctx.rep.expect_fail(&id, &format!("{}/params-do-not-reload", S::NAME), "serialized universal parameters do not deserialize", fail_replay(&inst, &id, ctx.seed, "reload"));
             continue; } };
-        let (ck2, vk2) = match guarded(|| S::PC::trim(&pp2, inst.sizes.supported, inst.sizes.supported, inst.bounds.as_deref())) {
+        let (ck2, vk2) = match guarded(|| S::PC::trim(&pp2, inst.sizes.supported, inst.shb, inst.bounds.as_deref())) {
             Ok(Ok(x)) => x,
             _ => { ctx.rep.expect_fail(&id, &format!("{}/reloaded-params-trim-refused", S::NAME), "trim of re-loaded parameters refused", fail_replay(&inst, &id, ctx.seed, "reload")); continue; }
         };
@@ -2213,7 +2223,7 @@ where
         let mut ev_bad = ev.clone();
         if let Some(k) = ev.keys().next().cloned() { *ev_bad.get_mut(&k).unwrap() += rand_nonzero(&mut rng); }
         let inst2 = Instance::<S> { sizes: inst.sizes.clone(), pp: inst.pp.clone(), ck: ck2, vk: vk2, polys: inst.polys.clone(), kinds: inst.kinds.clone(),
-            comms: inst.comms.clone(), states: inst.states.clone(), bounds: inst.bounds.clone() };
+            comms: inst.comms.clone(), states: inst.states.clone(), bounds: inst.bounds.clone(), shb: inst.shb };
         let mut outcomes = vec![];
         for (pname, prover) in [("original", &inst), ("reloaded", &inst2)] {
             let mut psp = fresh_sponge();
